@@ -94,6 +94,21 @@ def fact_atoms(t):
                     out |= linearize(side).atoms()
         elif x.k != "const":
             out.add(x)
+    # slice-length atoms are tied to their bounds and to the length of their base by the slice axioms
+    work = list(out)
+    while work:
+        a = work.pop()
+        if a.k == "un" and a.a[0] == "len" and a.a[1].k == "slice":
+            sl = a.a[1]
+            more = set()
+            for part in (sl.a[1], sl.a[2]):
+                if not is_const(part, None):
+                    more |= linearize(part).atoms()
+            more |= linearize(length(sl.a[0])).atoms()
+            for m in more:
+                if m not in out:
+                    out.add(m)
+                    work.append(m)
     return out
 
 
@@ -130,8 +145,14 @@ def prove(facts, goal):
         if st2 == "proved":
             return st2, m2
         if st2 == "refutable":
-            return st2, m2
-        return "refutable", m
+            m = m2
+    if st == "refutable":
+        # a REFUTED verdict needs a concrete input: every evaluable fact true, goal false
+        env = realise(facts, goal, m)
+        if env is None:
+            return "unknown", "counter-model of the linear abstraction could not be realised by a concrete input: " + \
+                   ", ".join(f"{show(k)[:30]}={v}" for k, v in list(m.items())[:5])
+        return "refutable", {sym(k): (v.hex() if isinstance(v, (bytes, bytearray)) else v) for k, v in env.items()}
     return st, m
 
 
@@ -464,3 +485,169 @@ def check_crc_verified(ck, it, env, func, root, lo: Lin, hi: Lin, exc_qual, rule
 def P_qual(it, short):
     from . import PKG
     return short if short.startswith(PKG + ".") or "." not in short else f"{PKG}.{short}"
+
+
+# ---------------------------------------------------------------------------- simplification under facts
+def simplify(t, facts, _cache=None):
+    """Rewrite a decoded term using the guard facts:
+       len(b[lo:hi])      -> hi - lo        when 0 <= lo <= hi <= len(b) is entailed
+       b[a:b2][c:d]       -> b[a+c : a+d]   when the inner slice is proven unclamped and d <= b2 - a
+       γ(bool(x), A, B)   -> A              when x is a byte string and A[len(x):=0] == B   (bool(x) <=> len(x) > 0)
+    Sound rewrites only; anything not provable is left alone."""
+    from .terms import mapterm, gamma, substitute
+    cache = {} if _cache is None else _cache
+
+    def proved(goal):
+        k = show(goal)
+        if k not in cache:
+            cache[k] = prove(facts, goal)[0] == "proved"
+        return cache[k]
+
+    def unclamped(sl):
+        b, lo, hi = sl.a
+        if is_const(hi, None):
+            return False
+        return proved(binop("and", binop("and", binop(">=", lo, C(0)), binop(">=", hi, lo)), binop("<=", hi, length(b))))
+
+    def f(x):
+        if x.k == "un" and x.a[0] == "len" and x.a[1].k == "slice":
+            sl = x.a[1]
+            if unclamped(sl):
+                return lin_term(linearize(sl.a[2]) - linearize(sl.a[1]))
+            if is_const(sl.a[2], None) and proved(binop("and", binop(">=", sl.a[1], C(0)), binop("<=", sl.a[1], length(sl.a[0])))):
+                return lin_term(linearize(length(sl.a[0])) - linearize(sl.a[1]))
+            return x
+        if x.k == "slice" and x.a[0].k == "slice":
+            inner = x.a[0]
+            a = inner.a[1]
+            c, d = x.a[1], x.a[2]
+            if is_const(inner.a[2], None):
+                # open inner slice: positions simply shift (a <= len(b) needed for exactness of an open outer end)
+                if not is_const(d, None):
+                    return T("slice", inner.a[0], lin_term(linearize(a) + linearize(c)), lin_term(linearize(a) + linearize(d)), ty="bytes")
+                return x
+            if unclamped(inner) and not is_const(d, None):
+                ilen = lin_term(linearize(inner.a[2]) - linearize(a))
+                if proved(binop("and", binop(">=", c, C(0)), binop("<=", d, ilen))):
+                    return T("slice", inner.a[0], lin_term(linearize(a) + linearize(c)), lin_term(linearize(a) + linearize(d)), ty="bytes")
+            return x
+        if x.k == "gamma" and x.a[0].k == "un" and x.a[0].a[0] == "bool":
+            v = x.a[0].a[1]
+            if v.k in ("slice", "bcat") or v.ty in ("bytes", "bytearray"):
+                lv = f(length(v)) if length(v).k == "un" else length(v)
+                A0 = linearize(x.a[1])
+                if lv in A0.co or any(a == lv for a in A0.co):
+                    zero = Lin({k2: c2 for k2, c2 in A0.co.items() if k2 != lv}, A0.c)
+                    if zero.key() == linearize(x.a[2]).key():
+                        return x.a[1]
+                else:
+                    # len(v) already rewritten to a linear form: substitute is not possible; compare under len == 0
+                    lvl = linearize(lv)
+                    if len(lvl.co) == 1 and lvl.c == 0:
+                        (atom, coef), = lvl.co.items()
+                        if coef == 1 and atom in A0.co:
+                            zero = Lin({k2: c2 for k2, c2 in A0.co.items() if k2 != atom}, A0.c)
+                            if zero.key() == linearize(x.a[2]).key():
+                                return x.a[1]
+            return x
+        return x
+
+    return mapterm(f, t)
+
+
+# ---------------------------------------------------------------------------- concrete realisation of FM counter-models
+def _eval_bool(t, env):
+    from .terms import evaluate, EvalError
+    try:
+        return bool(evaluate(t, env))
+    except EvalError:
+        return None
+    except Exception:
+        return None
+
+
+def realise(facts, goal, model, tries=400, seed=0):
+    """Turn an atom-level counter-model into a concrete input assignment (python values for every
+    free symbol) under which every evaluable fact holds and the goal is false.  Facts that cannot be
+    evaluated (CRC values, opaque calls) are skipped.  -> dict or None"""
+    import random
+    from .terms import free_syms, evaluate, EvalError
+    rng = random.Random(seed)
+    terms = list(facts) + [goal]
+    syms = {}
+    for t in terms:
+        for s in subterms(t):
+            if s.k == "sym":
+                syms[s.a[0]] = s
+    # which symbols are byte buffers?
+    bufs = {n for n, s in syms.items() if s.ty in ("bytes", "bytearray")}
+    for t in terms:
+        for s in subterms(t):
+            if s.k in ("idx", "slice") and s.a[0].k == "sym":
+                bufs.add(s.a[0].a[0])
+            if s.k == "un" and s.a[0] == "len" and s.a[1].k == "sym":
+                bufs.add(s.a[1].a[0])
+    base = {}
+    blen = {}
+    fixed = {}
+    for a, v in (model or {}).items():
+        if a.k == "sym" and a.a[0] not in bufs:
+            base[a.a[0]] = v
+        elif a.k == "un" and a.a[0] == "len" and a.a[1].k == "sym":
+            blen[a.a[1].a[0]] = max(int(v), 0)
+    for n in bufs:
+        blen.setdefault(n, 0)
+    for a, v in (model or {}).items():
+        if a.k == "idx" and a.a[0].k == "sym" and a.a[1].k == "const" and isinstance(a.a[1].a[0], int):
+            fixed[(a.a[0].a[0], a.a[1].a[0])] = int(v) & 0xFF
+        elif a.k == "unpacked" and a.a[1].k == "slice" and a.a[1].a[0].k == "sym" and a.a[1].a[1].k == "const":
+            try:
+                raw = struct.pack(a.a[0], int(v))
+            except (struct.error, ValueError):
+                continue
+            for i, b in enumerate(raw):
+                fixed[(a.a[1].a[0].a[0], a.a[1].a[1].a[0] + i)] = b
+    palette = [0, 0, 0, 1, 2, 3, 4, 7, 8, 0x0F, 0x10, 0x11, 0x20, 0x21, 0x24, 0x40, 0x7F, 0x80, 0xC0, 0xF0, 0xFF]
+
+    def attempt(k):
+        env = {}
+        for n, s in syms.items():
+            if n in bufs:
+                continue
+            if n in base:
+                env[n] = base[n]
+            elif s.ty == "bool":
+                env[n] = False if k == 0 else rng.random() < 0.5
+            else:
+                env[n] = 0 if k == 0 else rng.choice([0, 0, 1, 2, 3, 4, 7, 8, 255, 256, 65535])
+        for n in bufs:
+            ln = blen.get(n, 0)
+            if k > tries // 2:
+                ln = max(0, ln + rng.choice([0, 0, 1, 2, -1]))
+            bs = bytearray(ln)
+            if k > 0:
+                for i in range(ln):
+                    bs[i] = rng.choice(palette) if rng.random() < 0.8 else rng.randrange(256)
+            if k <= (tries * 3) // 4:
+                for (bn, pos), val in fixed.items():
+                    if bn == n and 0 <= pos < ln:
+                        bs[pos] = val
+            env[n] = bytes(bs)
+        return env
+
+    for k in range(tries):
+        env = attempt(k)
+        g = _eval_bool(goal, env)
+        if g is None:
+            return None        # the goal itself cannot be evaluated: nothing to realise
+        if g:
+            continue
+        ok = True
+        for f in facts:
+            v = _eval_bool(f, env)
+            if v is False:
+                ok = False
+                break
+        if ok:
+            return env
+    return None
